@@ -1008,6 +1008,7 @@ func (e *Eng) execInstr(fr *Frame, b *ssa.BasicBlock, ins ssa.Instruction, st *S
 			}
 		}
 		e.siteAsserts(fr, "go", calleeName(x.Common()), x.Pos(), st, g, gomap)
+		e.siteSetsWhen(fr, "go", calleeName(x.Common()), st, g, nil, false)
 		fr.siteIns = nil
 	case *ssa.Defer:
 		d := deferred{call: x, guard: g, block: b}
